@@ -42,7 +42,7 @@ class BuildResult:
 
 
 _SUB_RE = re.compile(r"sub\s+(\S+)\s+`(.*?)`\s*=>\s*`(.*?)`\s*(x\d+|\*|\?)?\s*$")
-_HINT_RE = re.compile(r"hint\s+(before|after|start|loopstart)\s*(?:(\d+)\s*)?(?:`(.*)`)?\s*$")
+_HINT_RE = re.compile(r"hint\s+(before|after|start|loopstart|loopend)\s*(?:(\d+)\s*)?(?:`(.*)`)?\s*$")
 
 
 def _variant_filter(lines, variant):
@@ -355,6 +355,20 @@ def build(template_path, repo, variant="strict", inline=None):
                 sig = R.name_result(sig, opts["ret"])
             # loops
             loops = R.find_loops(body)
+            # `hint loopend k`: a marker comment on its own line before the closing brace of loop k's body; the hint is then
+            # placed before that line
+            le = sorted({nth for (pos, nth, anchor, content, o2) in opts["hints"] if pos == "loopend"}, reverse=True)
+            marks = []
+            for nth in le:
+                if nth < 1 or nth > len(loops):
+                    res.lost.append("%s: loopend hint: loop %d not found" % (where, nth))
+                    continue
+                marks.append((match_close(body, loops[nth - 1]), nth))
+            for (ci, nth) in sorted(marks, reverse=True):
+                body[ci:ci] = R.syn("\n/*VX_LOOPEND_%d*/\n" % nth)
+            if marks:
+                loops = R.find_loops(body)
+            opts["hints"] = [((("before", 1, "/*VX_LOOPEND_%d*/" % nth, content, o2)) if pos == "loopend" else (pos, nth, anchor, content, o2)) for (pos, nth, anchor, content, o2) in opts["hints"]]
             ins = {}
             for kord, content in opts["loops"].items():
                 if kord < 1 or kord > len(loops):
